@@ -203,6 +203,12 @@ def run_watch(prop, tier, replay=None):
         mc_states, mc_trans = mc_out["states"], mc_out["trans"]
         for x in mc_out["lines"]:
             print(x)
+    # vacuity guard: C08 speaks about the re-observation path too; a run in which that path forwarded nothing at all (and
+    # nothing was rejected) has not exercised conditions (i)-(vi) there and cannot decide the property
+    reobs_forwards = r.get("reobs_forwards", 0)
+    if prop == "C08" and not replay and not rejs and reobs_forwards == 0:
+        raise vlib.Broken("vacuous: no message was forwarded by the re-observation path in %d scenarios, C08 cannot be decided "
+                          "on that path (is re-observation forwarding anything at all?)" % len(scenarios))
     by_t = {}
     for ln in lines:
         by_t.setdefault(ln["t"], []).append(ln)
@@ -228,7 +234,7 @@ def run_watch(prop, tier, replay=None):
         sc = scenarios[rj["t"] - 1]
         p, sig = fa.classify(rj, by_t[rj["t"]], sc["mainnet"])
         # an End line the harness itself did not flag can only be a disagreement between harness and specification
-        if rj["line"]["ev"] == "End" and not rj["line"]["a"]["missing"] and not rj["line"]["a"]["spin"]:
+        if rj["line"]["ev"] == "End" and not rj["line"]["a"]["missing"] and not rj["line"]["a"]["spin"] and not rj["line"]["a"].get("untaken"):
             raise vlib.Broken("specification expects a message the harness did not wait for (scenario %d, family %s): %s"
                               % (rj["t"], sc.get("family"), json.dumps(rj.get("frontier", [])[:1])[:1500]))
         if prop in p.split("+"):
@@ -280,7 +286,7 @@ def run_watch(prop, tier, replay=None):
                 "Watcher.Run that TLC explained with an action of AlphWatcher/AlphChain; distinct = distinct (page content class | metadata "
                 "answer shape | main-chain / status answer | emitted event class)",
         "mc_configs": mcs, "trace_spec_states": r["distinct"], "requests_by_route": dict(routes), "effects_observed": dict(effects),
-        "scenario_families": dict(fams), "trace_spec_negative_selftest": selftest, "messages_the_spec_required": expected, "process_deaths": len(crashes),
+        "scenario_families": dict(fams), "trace_spec_negative_selftest": selftest, "messages_the_spec_required": expected, "process_deaths": len(crashes), "reobservation_forwards": reobs_forwards,
         "rejected_signatures": dict(sigs), "rejected_other_properties": dict(others),
         "known_findings_matched": getattr(verdict, "n_known", 0), "exhaustive": False,
     }
